@@ -139,6 +139,11 @@ def run_segments(cfg, segments, use_folder=None):
         with contextlib.redirect_stdout(io.StringIO()), warnings.catch_warnings():
             warnings.simplefilter("ignore")
             explicit = bool(cfg.get("explicit_checkpoints"))       # no saving folder: a checkpoint is written only at a 'restore' boundary
+            if cfg.get("leftover") and folder:
+                # the folder is not empty: it holds the checkpoint of ANOTHER calibration (other loss, other line-up, other seed)
+                other = build(cfg["leftover"], folder)
+                other.calibrate(cfg["leftover"].get("batches", 2))
+                del other
             cal = build(cfg, None if explicit else folder)
             for n, boundary in segments:
                 rets.append(cal.calibrate(n))
